@@ -215,7 +215,7 @@ ASSUME = ['MySQL/Postgres/Oracle regex engines and collations, real MongoDB quer
 
 def main(argv):
     return run_check('C07', [BackendDecisionStream()], argv, trusted_base=TRUSTED, assumptions=ASSUME,
-                     translated=('pin_sql', 'pin_mongo', 'pin_redis', 'memory', 'guard', 'checker'))
+                     translated=('sql', 'pin_sql', 'pin_mongo', 'pin_redis', 'memory', 'guard', 'checker'))
 
 
 if __name__ == '__main__':
